@@ -201,6 +201,23 @@ def run(ctx):
                                       result=dtwmon.tolist(r3), settings=dict(dtwmon.settings_key(kw)))
                 except Exception as e:
                     ctx.violation("exception", fn="dba_loop(identical)", use_c=use_c, error=repr(e)[:300], **wit)
+        # layout of the initial average must not matter (dba_loop copies it before the in-place C update)
+        if nd and it % 2 == 1:
+            for use_c in (False, True):
+                try:
+                    cC = np.ascontiguousarray(c_np)
+                    cF = np.asfortranarray(c_np)
+                    cT = np.ascontiguousarray(c_np.T).T
+                    outs = [np.asarray(dtw_barycenter.dba_loop(data, c=cc_, max_it=1, thr=None, mask=mask, use_c=use_c, **kw))
+                            for cc_ in (cC, cF, cT)]
+                    ctx.count("average_layout_checks")
+                    if not (np.array_equal(outs[0], outs[1]) and np.array_equal(outs[0], outs[2])):
+                        ctx.violation("result-depends-on-layout-of-initial-average", use_c=use_c,
+                                      c_order=outs[0].tolist(), f_order=outs[1].tolist(), t_view=outs[2].tolist(), **wit)
+                    if not np.array_equal(cF, c_np) or not np.array_equal(cT, c_np):
+                        ctx.violation("inputs-modified", fn="dba_loop", what="initial average", **wit)
+                except Exception as e:
+                    ctx.violation("exception", fn="dba_loop(layout)", use_c=use_c, error=repr(e)[:300], **wit)
         # dba_loop: at most max_it update steps
         if it % 2 == 0:
             for use_c in (False, True):
